@@ -43,7 +43,7 @@ class DomSpec(netx.Spec):
     def check_state(self, world, event, report):
         if world.exception is not None:
             ev, et, msg, where = world.exception
-            self.notes.add(f"{self.algo}: handler raised {et} at {where[-1]}")
+            self.notes.add(f"{self.algo}: handler raised {et} at {netx.site(where)}")
             return
         bad = list(world.mon.get("bad", ()))
         for n, c in world.comps.items():
